@@ -39,9 +39,17 @@ def showNic (c : Nic) : String :=
 def showSt : PState → String
   | .on => "ON" | .off => "OFF" | .booting => "BOOTING" | .shuttingDown => "SHUTTING_DOWN"
 
+def showSvc (s : Service) : String :=
+  match s.st with
+  | .running => "R" | .stopped => "S" | .paused => "P" | .disabled => "D" | .installing => "I" | .restarting => "T"
+
+def showApp (a : App) : String :=
+  match a.st with
+  | .running => "R" | .closed => "C" | .installing => "I"
+
 def showNode (n : Node) : String :=
   s!"st={showSt n.st} up_dur={n.upDur} down_dur={n.downDur} up_cd={n.upCd} down_cd={n.downCd} rs={n.resetting} " ++
-  s!"nics={",".intercalate (n.nics.map showNic)} svcs={n.svcs.length} apps={n.apps.length} h={">".intercalate (n.hist.reverse.map showSt)}"
+  s!"nics={",".intercalate (n.nics.map showNic)} svcs={",".intercalate (n.svcs.map showSvc)} apps={",".intercalate (n.apps.map showApp)} h={">".intercalate (n.hist.reverse.map showSt)}"
 
 def firstDiff (name : String) (f g : Node → Node × Option Bool) : String :=
   match smallNodes.find? (fun n => f n != g n) with
